@@ -24,7 +24,8 @@ E1 = {
     "C18": (["contracts.c18"], ["Independencies.closure.<locals>.sg1", "Independencies.closure.<locals>.sg2",
                                  "Independencies.closure.<locals>.sg3", "IndependenceAssertion.__eq__",
                                  "IndependenceAssertion.__hash__", "DAG.get_immoralities",
-                                 "DAG.is_iequivalent.<locals>.v_structures", "DAG.is_iequivalent"]),
+                                 "DAG.is_iequivalent.<locals>.v_structures", "DAG.is_iequivalent",
+                                 "Independencies.contains", "Independencies.entails", "Independencies.is_equivalent"]),
 }
 
 E1_TRUSTED = ["z3 as the deciding solver", "vf/pyvc symbolic semantics of the Python subset (DESIGN §1, §5)",
